@@ -108,6 +108,31 @@ def check(ctx, x, xvals, kname, k, case, is_array, elementwise_k=None):
             ctx.violation("value:%s:%s:%s" % (key_cls, label, kname.split("[")[0]), dict(c, got=got_vals[:6], want=[float(w) for w in want_vals[:6]], x=repr(x)[:120]), replay=c)
 
 
+def integer_containers(ctx, r, n_rounds):
+    """x holding integers: int64 / int32 ndarrays (a fractional or numpy-float k must not be squeezed into the container's
+    dtype) and lists / tuples of python ints, also huge ones (python ints are exact: 2**62 * 4 is 2**64, not 0)."""
+    import numpy as np
+    from barril.units import Array, FixedArray
+
+    for i in range(n_rounds):
+        ints = [r.choice([1, 2, 3, 10, -7, 0, 5]) for _ in range(r.choice([2, 3, 4]))]
+        big = [2**62, 1, -(2**61)][: len(ints)] if len(ints) >= 2 else [2**62]
+        u = r.choice(["m", "s", "kg", "degC"])
+        for label, values in (("ndarray[int64]", np.array(ints, dtype=np.int64)), ("ndarray[int32]", np.array(ints, dtype=np.int32)), ("list of int", list(ints)), ("tuple of int", tuple(ints)), ("list of huge int", list(big)), ("tuple of huge int", tuple(big))):  # fmt: skip
+            for cls in (Array, FixedArray):
+                x = cls(values, u) if cls is Array else cls(len(values), values, u)
+                xvals = list(values)
+                case = {"x": repr(x)[:160], "class": cls.__name__, "container": label, "length": len(xvals), "quantity": "simple"}
+                ks = number_kinds(r)
+                if "huge" in label:
+                    ks = [("int", 4), ("huge int", 2**70), ("int minus one", -1), ("float", 2.5), ("int 10**18", 10**18)]
+                for kname, k in ks:
+                    if kname == "np.float32" or ("int3" in label and isinstance(k, (np.integer,)) and not isinstance(k, np.int32)):
+                        continue  # numpy's own promotion / overflow rules between small integer types are numpy's
+                    ctx.nt((cls.__name__, label, len(xvals), "integers", kname))
+                    check(ctx, x, xvals, kname, k, case, True)
+
+
 def exponent_families(ctx, r, n_families):
     """One process, quantities that differ *only in one exponent* (u/v, u/v2, u/v3, 1/v, 1/v2, u2/v ...), every
     number form applied to each in turn and again in reverse order: whatever a previous operand left behind
@@ -232,6 +257,7 @@ def run(ctx):
                                 check(ctx, x, xvals, kname, k, case, True, elementwise_k=[k.reshape(-1)[0]] * len(xvals))
             if i < 2 and ctx.shard == 0:
                 ctx.sample({"x": programs.render(spec), "quantity_kind": qkind, "length": n})
+        integer_containers(ctx, ctx.rng("ints"), 6 if ctx.tier == "quick" else 80)
         exponent_families(ctx, ctx.rng("families"), 12 if ctx.tier == "quick" else 150)
     ctx.inconclusive_if(ctx.counters.get("operands that could not be built", 0) > n_rounds, "barril refused to build %d valid operands" % ctx.counters.get("operands that could not be built", 0))
     ctx.inconclusive_if(probe.COUNTS["Array.__rmul__"] == 0, "Array operators never reached")
